@@ -19,6 +19,9 @@ const USERS: [&[u8]; 2] = [b"alice", b"bob"];
 #[derive(Clone, Debug, PartialEq)]
 pub enum Act {
     Register { u: usize, pw: usize, srv: usize },
+    /// a registration whose finish step runs on a generator that fails (environment fault): it must either be refused
+    /// or still produce a fresh export key
+    RegisterRngFails { u: usize, pw: usize, srv: usize },
     Login { u: usize, srv: usize, ctx: bool },
 }
 #[derive(Clone)]
@@ -66,6 +69,9 @@ impl Lts for World {
                     for srv in 0..self.nsrv {
                         v.push(Act::Register { u, pw, srv });
                     }
+                    if self.mode == Mode::Own && u == 0 && pw == 0 {
+                        v.push(Act::RegisterRngFails { u, pw, srv: 0 });
+                    }
                 }
             }
         }
@@ -103,6 +109,43 @@ impl Lts for World {
                     return None;
                 }
             },
+            Act::RegisterRngFails { u, pw, srv } => {
+                use crate::adapter::Blob;
+                let api = &self.api;
+                let r = (|| -> Result<Option<(Vec<u8>, Vec<u8>, Vec<u8>, Vec<u8>)>, String> {
+                    let (req, creg) = api.reg_start(&mut t, PWS[*pw]).map_err(|e| format!("{:?}", e))?;
+                    let resp = api.sreg_start(&Blob::n(&self.setups[*srv]), &Blob::n(&req), USERS[*u]).map_err(|e| format!("{:?}", e))?;
+                    t.fail_at = Some(t.pos);
+                    let fin = api.reg_finish(&mut t, &Blob::n(&creg), PWS[*pw], &Blob::n(&resp), None, None, None);
+                    t.fail_at = None;
+                    match fin {
+                        Err(_) => Ok(None),
+                        Ok((up, ek, _)) => Ok(Some((req, resp, up, ek))),
+                    }
+                })();
+                match r {
+                    Err(e) => {
+                        honest_fail(cx, self.mode, "registration-fails", e);
+                        return None;
+                    }
+                    Ok(None) => {
+                        cx.outcome("registration-refused-when-rng-fails");
+                        n.regs += 1;
+                    }
+                    Ok(Some((req, resp, up, ek))) => {
+                        cx.outcome("registration-completes-although-rng-fails");
+                        if n.exports.contains(&ek) {
+                            cx.violate("export-key/not-separated-when-rng-fails", "a registration completed on a failing random generator returns an export key that an earlier registration already returned".into());
+                        }
+                        n.exports.push(ek.clone());
+                        n.secrets.push(ek.clone());
+                        let file = self.api.sreg_finish(&Blob::n(&up)).unwrap_or_default();
+                        n.wire.extend([req, resp, up, file.clone()]);
+                        n.recs[u * 2 + srv] = Some(Rec { file, export: ek, pw: *pw });
+                        n.regs += 1;
+                    }
+                }
+            }
             Act::Login { u, srv, ctx } => {
                 let rec = s.recs[u * 2 + srv].as_ref().unwrap();
                 let c: Option<&[u8]> = if *ctx { Some(b"c") } else { None };
@@ -143,6 +186,7 @@ impl Lts for World {
     fn describe(&self, a: &Act) -> Value {
         match a {
             Act::Register { u, pw, srv } => json!({"register": {"user": String::from_utf8_lossy(USERS[*u]), "pw": pw, "server": srv}}),
+            Act::RegisterRngFails { u, pw, srv } => json!({"register_with_failing_rng": {"user": String::from_utf8_lossy(USERS[*u]), "pw": pw, "server": srv}}),
             Act::Login { u, srv, ctx } => json!({"login": {"user": String::from_utf8_lossy(USERS[*u]), "server": srv, "ctx": ctx}}),
         }
     }
